@@ -6,7 +6,7 @@
   "C02"
  ],
  "level": "U",
- "tier": "wip",
+ "tier": "quick",
  "harness": "h_di_get",
  "enforce": [
   "e2fsck_get_dir_info"
@@ -30,7 +30,8 @@
   "well_formed (strictly ascending inode numbers) enters as INSTANCES: first and last entry, lower bound of the inode number, last_lookup, and every entry the binary search probes (ghost statement VERIF_GHOST_GET_DIR_INFO_PROBE)",
   "needs the anchors of hooks-pending/ds.diff in e2fsck/dirinfo.c"
  ],
- "native": false
+ "native": false,
+ "tier_after_hooks": "quick"
 }
 */
 /* VERIF-UNIT
@@ -41,7 +42,7 @@
   "C02"
  ],
  "level": "U",
- "tier": "wip",
+ "tier": "thorough",
  "harness": "h_di_acc",
  "loop_contracts": true,
  "includes": [
@@ -65,7 +66,8 @@
   "as dirinfo_get; the contract of each accessor is stated by the harness (ASSUME precondition, CHECK postconditions), the real e2fsck_get_dir_info runs inside"
  ],
  "native": false,
- "backend": "cadical"
+ "timeout": 600,
+ "tier_after_hooks": "thorough"
 }
 */
 /* VERIF-UNIT
@@ -76,7 +78,7 @@
   "C02"
  ],
  "level": "U",
- "tier": "wip",
+ "tier": "thorough",
  "harness": "h_di_add",
  "enforce": [
   "e2fsck_add_dir_info"
@@ -104,7 +106,10 @@
   "scenario 'room': count < size (the resize is unreachable: obligation); count == size is dirinfo_add_grow"
  ],
  "native": false,
- "backend": "cadical"
+ "backend": "cadical",
+ "timeout": 900,
+ "no_cross_check": true,
+ "tier_after_hooks": "thorough"
 }
 */
 /* VERIF-UNIT
@@ -115,7 +120,7 @@
   "C02"
  ],
  "level": "U",
- "tier": "wip",
+ "tier": "thorough",
  "harness": "h_di_add",
  "enforce": [
   "e2fsck_add_dir_info"
@@ -144,7 +149,10 @@
   "scenario 'grow': count == size (the array is resized by 10 entries); count < size is dirinfo_add_room"
  ],
  "native": false,
- "backend": "cadical"
+ "backend": "cadical",
+ "timeout": 900,
+ "no_cross_check": true,
+ "tier_after_hooks": "thorough"
 }
 */
 /*
